@@ -44,7 +44,7 @@ def fb_value(h, i, nohint_kind="float"):
     if h == "int":
         return i * 3 + 1
     if h == "float":
-        return i * 0.25 - 1.0
+        return i - 2 if i % 5 == 3 else i * 0.25 - 1.0        # a `-> float` getter may hand back a Python int now and then
     if h == "bool":
         return i % 2 == 0
     if h == "str":
@@ -52,7 +52,7 @@ def fb_value(h, i, nohint_kind="float"):
     if h == "int[]":
         return [i, i + 1, -i]
     if h == "float[]":
-        return (i * 0.5, 1.5)
+        return (i, 2) if i % 7 == 4 else (i * 0.5, 1.5)
     if h == "bool[]":
         return [i % 2 == 0, True]
     if h == "str[]":
@@ -195,8 +195,12 @@ def build_robot(spec):
                       {"all_components_exist": all(present), "injected_identity": inj, "all_injected": all(everyone)})
             body["setup"] = setup
         base_body = {}
+        markers = {}
         for r in c.get("resets", ()):
-            (base_body if r.get("inherited") else body)[r["attr"]] = will_reset_to(rt.resolve(r["default"]))
+            # `left = right = will_reset_to(0.0)`: ONE marker object bound under two names
+            mk = markers[r["alias_of"]] if r.get("alias_of") in markers else will_reset_to(rt.resolve(r["default"]))
+            markers[r["attr"]] = mk
+            (base_body if r.get("inherited") else body)[r["attr"]] = mk
             if "base_default" in r and not r.get("inherited"):
                 # the subclass re-declares a marker it inherits, with another default: the subclass's one counts
                 base_body[r["attr"]] = will_reset_to(rt.resolve(r["base_default"]))
@@ -247,6 +251,15 @@ def build_robot(spec):
         ann = {a: comp_classes[a] for a in c.get("inject", ())}
         if ann and not c.get("same_class_as"):
             comp_classes[cname].__annotations__ = ann
+        if c.get("ctor_inject") and not c.get("same_class_as"):
+            # constructor injection of earlier-declared components: `def __init__(self, drivetrain: Drivetrain)`
+            cls_ = comp_classes[cname]
+            ns_ = {"_real": cls_.__init__, "_rt": rt}
+            params_ = ", ".join(c["ctor_inject"])
+            ids_ = ", ".join(f"({n!r}, {n})" for n in c["ctor_inject"])
+            exec(f"def __init__(self, {params_}):\n    self._vf_ctor_args = [{ids_}]\n    _real(self)\n", ns_)
+            ns_["__init__"].__annotations__ = {n: comp_classes[n] for n in c["ctor_inject"]}
+            cls_.__init__ = ns_["__init__"]
     # ---- robot class chain
     MagicRobot = magicbot.MagicRobot
     prev = MagicRobot
@@ -351,6 +364,13 @@ class Run:
             flags = spec.get("disabled_flags", {}).get("0", (False, False)) if mode == "disabled" else (au, te)
             simenv.set_ds(en, flags[0], flags[1], fms=spec["fms"])
             import wpilib
+            if spec.get("match_type"):
+                # match information sent by the driver station (practice matches at home have it without any field)
+                from wpilib.simulation import DriverStationSim as _DSS
+                _DSS.setMatchType(getattr(wpilib.DriverStation.MatchType, "k" + spec["match_type"].capitalize()))
+                _DSS.setEventName("vf-event")
+                _DSS.setMatchNumber(7)
+                _DSS.notifyNewData()
             # the dashboard's 'Auto Selector' string (always written: "" names no mode)
             wpilib.SmartDashboard.putString("Auto Selector", spec.get("auto_selector") or "")
             robot = robot_cls()
@@ -370,6 +390,24 @@ class Run:
             left = dwell
             ended_called = False
             cur_fms = [spec["fms"]]
+            switched_early = [False]
+
+            def arm_early(seg_, left_):
+                """The driver station changes to the next mode in the MIDDLE of this segment's last iteration (inside a
+                callback) instead of while the robot waits for the next one."""
+                site = spec.get("early_switch", {}).get(str(seg_))
+                if site is None or left_ != 1 or seg_ + 1 >= len(history):
+                    return
+                nmode = history[seg_ + 1][0]
+
+                def do_switch(_n=nmode, _s=seg_ + 1):
+                    en_, au_, te_ = MODE_WORDS[_n]
+                    if _n == "disabled":
+                        au_, te_ = spec.get("disabled_flags", {}).get(str(_s), (False, False))
+                    simenv.set_ds(en_, au_, te_, fms=cur_fms[0])
+                    switched_early[0] = True
+                rec.early = {"site": site, "fn": do_switch}
+            arm_early(0, left)
             while True:
                 st = gate.wait_parked(30.0)
                 if st == "timeout":
@@ -403,7 +441,11 @@ class Run:
                         en, au, te = MODE_WORDS[mode]
                         if mode == "disabled":
                             au, te = spec.get("disabled_flags", {}).get(str(seg), (False, False))
-                        simenv.set_ds(en, au, te, fms=cur_fms[0])
+                        rec.early = None
+                        if not switched_early[0]:
+                            simenv.set_ds(en, au, te, fms=cur_fms[0])
+                        switched_early[0] = False
+                arm_early(seg, left)
                 alarm = e.alarm_of(gate.current_delay)
                 if alarm is not None:
                     e.step_to(alarm)
